@@ -166,6 +166,8 @@ class Interp:
         self.caught: list[tuple[str, str, str, str]] = []  # exceptions the analysed code caught itself (diagnostics)
         self._globals: dict[tuple[str, str], Any] = {}
         self.natives: dict[str, Any] = {}  # models of third-party callables, by qualified name
+        self.set_order_policy = 0  # 0: sets of graph elements are iterated by ascending element number, 1: descending
+        self.set_order_choices = 0
         self.builtin_overrides: dict[str, Any] = {}  # print, exit, ... when a rule wants to observe them
         self.native_consts: dict[str, Any] = {}  # models of third-party objects, by qualified name
         self.natives["functools.reduce"] = self._reduce
@@ -336,6 +338,8 @@ class Interp:
                 kwargs = dict(kwargs, key=self._pycallable(kwargs["key"]))
             if fv in (_BUILTINS["map"], _BUILTINS["filter"]) and args:
                 args = [self._pycallable(args[0])] + [self.iterate(a) for a in args[1:]]
+            if fv in _ITERABLE_BUILTINS and fv not in _ORDER_FREE_BUILTINS and any(self._element_set(a) for a in args):
+                args = [self._ordered_elements(a) if self._element_set(a) else a for a in args]
             if any(isinstance(a, AObj) for a in args) and fv in _ITERABLE_BUILTINS:
                 args = [self.iterate(a) if isinstance(a, AObj) and self.repo.find_method(a.cls, "__iter__") is not None else a for a in args]
             try:
@@ -716,7 +720,19 @@ class Interp:
             return True
         return bool(v)
 
+    def _element_set(self, v: Any) -> bool:
+        """A set of graph elements: the library hashes them by the address of their graph, so the order of an iteration is not fixed by
+        the program.  The interpreter iterates by element number, ascending or descending (`set_order_policy`), and counts the places
+        where that choice was made, so that a rule can evaluate both orders."""
+        return isinstance(v, (set, frozenset)) and len(v) >= 2 and all(x is None or isinstance(x, (MVertex, MEdge)) for x in v) and any(x is not None for x in v)
+
+    def _ordered_elements(self, v: Any) -> list[Any]:
+        self.set_order_choices += 1
+        return sorted(v, key=lambda x: (-1 if x is None else x._i), reverse=bool(self.set_order_policy))
+
     def iterate(self, v: Any) -> Any:
+        if self._element_set(v):
+            return self._ordered_elements(v)
         if isinstance(v, (list, tuple, set, dict, str, range)):
             return list(v)
         if isinstance(v, AObj):
@@ -1621,5 +1637,6 @@ _BUILTINS: dict[str, Any] = {
     "None": None,
 }
 
+_ORDER_FREE_BUILTINS = {_BUILTINS[n] for n in ("set", "sorted", "any", "all", "min", "max", "sum", "frozenset") if n in _BUILTINS}
 _ITERABLE_BUILTINS = {_BUILTINS[n] for n in ("list", "tuple", "set", "sorted", "enumerate", "zip", "any", "all", "min", "max", "reversed", "sum", "iter", "frozenset")
                       if n in _BUILTINS}
